@@ -370,7 +370,7 @@ theorem merge_only_adds (fuel : Nat) (s : X) (O : Oracle) (dest src : Nat) (w : 
   · exact Adds.refl _ _
   · split
     · exact Adds.refl _ _
-    · exact (mergeAux_adds O (Nat.le_refl _) fuel { s with orig := id } dest src
+    · exact (mergeAux_adds O (Nat.le_refl _) fuel { s with orig := id } _ dest src
         ⟨w, Adds.refl _ _⟩).2
 
 /-- `merge_only_adds` spelled out for one object `i` that existed before the merge. -/
@@ -399,6 +399,100 @@ theorem clean_only_detaches (fuel : Nat) (s : X) (O : Oracle) (x : Nat) (w : WF 
     · exact Detaches.refl _
     · exact (cleanAux_inv (P := CInv s.h) (cinv_remove s.h) O fuel { s with orig := id } x
         ⟨w, Detaches.refl _⟩).2
+
+/-! ### The link setter after a refused merge (fixes 592a7e3, dccf4ba) -/
+
+/-- every attribute comparison of `merge_check` fails (nothing can be merged); the link stored on
+    object 2 designates object 1 -/
+def demoOracleRefusing : Oracle :=
+  { ty := fun _ => "t", secOk := fun _ _ => false, propOk := fun _ _ => true,
+    eq := fun a b => a == b, relOk := fun _ _ => true, ids := fun i => s!"n{i}",
+    oldLink := fun i => if i = 2 then some 1 else none }
+
+/-- A link assignment to a Section whose link is not resolved - it has none, or one that is only
+    stored - does nothing but `clean()` and the merge of the new target: when the merge is refused,
+    the state is the one the refused merge left and the outcome is its outcome; the stored link is
+    not assigned again (former finding C03/refused-link-reresolved-without-end). -/
+theorem stored_link_not_reassigned (O : Oracle) (fuel : Nat) (s s1 s2 : X) (x t : Nat) (out : XOut)
+    (hp : (s.h.node x).parent ≠ none) (hr : s.resolved x = false)
+    (hc : cleanIfLinked O fuel s x = (s1, .ok)) (hm : mergeAux O fuel s1 true x t = (s2, out))
+    (hne : out ≠ .ok) :
+    setLinkAux O fuel s x (.path (some t)) = (s2, out) := by
+  unfold setLinkAux
+  split
+  · rename_i h; exact absurd h hp
+  · simp only [hc, hm, hr, Bool.false_eq_true, if_false]
+    cases out with
+    | ok => exact absurd rfl hne
+    | raised e => rfl
+    | runtime => rfl
+    | fuel => rfl
+
+/-- The same for the assignment made by the `except` branch itself (`self.merge()`): when it
+    starts from a Section whose link is not resolved - as `clean()` leaves it - its result is the
+    result of the merge, it cannot nest further. -/
+theorem reresolve_does_not_nest (O : Oracle) (fuel : Nat) (s s1 : X) (x t0 : Nat)
+    (ho : O.oldLink x = some t0) (hr : s.resolved x = false)
+    (hc : cleanIfLinked O fuel s x = (s1, .ok)) :
+    relinkAux O (fuel + 1) s x = mergeAux O fuel s1 true x t0 := by
+  unfold relinkAux
+  simp only [ho, hc, hr, Bool.false_eq_true, if_false]
+  generalize mergeAux O fuel s1 true x t0 = r
+  obtain ⟨s2, out⟩ := r
+  cases out <;> rfl
+
+/-- Witness of the former finding: doc(0) / a(1), doc / x(2); `x` carries a stored link to `a`
+    that was never resolved, and no Section can be merged into `x`. -/
+def storedLinkState : X :=
+  { (runX 10 X.empty [
+      (demoOracleRefusing, .prim (.construct .doc "" "d" none true)),
+      (demoOracleRefusing, .prim (.construct .sec "a" "i1" (some 0) true)),
+      (demoOracleRefusing, .prim (.construct .sec "x" "i2" (some 0) true))]) with
+    link := fun i => i == 2 }
+
+/-- Before fix 592a7e3 the refused assignment `x.link = <path of a>` never came back: the
+    `except` branch assigned the stored link again, whatever the recursion budget. -/
+theorem legacy_relink_runs_out_of_budget (fuel : Nat) :
+    (relinkLegacy demoOracleRefusing fuel storedLinkState 2).2 = .fuel := by
+  have hclean : ∀ f, cleanIfLinked demoOracleRefusing f storedLinkState 2 = (storedLinkState, .ok) ∨
+      cleanIfLinked demoOracleRefusing f storedLinkState 2 = (storedLinkState, .fuel) := by
+    intro f
+    cases f with
+    | zero => right; rfl
+    | succ f =>
+      cases f with
+      | zero => right; rfl
+      | succ f => left; rfl
+  have hmerge : ∀ f, mergeAux demoOracleRefusing f storedLinkState true 2 1 = (storedLinkState, .fuel) ∨
+      mergeAux demoOracleRefusing f storedLinkState true 2 1 = (storedLinkState, .raised .valueError) := by
+    intro f
+    cases f with
+    | zero => left; rfl
+    | succ f =>
+      cases f with
+      | zero => left; rfl
+      | succ f => right; rfl
+  induction fuel with
+  | zero => rfl
+  | succ f ih =>
+    unfold relinkLegacy
+    have ho : demoOracleRefusing.oldLink 2 = some 1 := rfl
+    simp only [ho]
+    rcases hclean f with h | h
+    · rcases hmerge f with h2 | h2
+      · simp only [h, h2]
+      · simp only [h, h2]; exact ih
+    · simp only [h]
+
+/-- With the fix the same assignment is refused with the ValueError of the merge and changes
+    nothing, for every budget that lets `clean()` and the merge check run at all. -/
+theorem stored_link_refused_unchanged (fuel : Nat) :
+    setLinkAux demoOracleRefusing (fuel + 2) storedLinkState 2 (.path (some 1)) =
+      (storedLinkState, .raised .valueError) := by
+  have h1 : cleanIfLinked demoOracleRefusing (fuel + 2) storedLinkState 2 = (storedLinkState, .ok) := rfl
+  have h2 : mergeAux demoOracleRefusing (fuel + 2) storedLinkState true 2 1 =
+      (storedLinkState, .raised .valueError) := rfl
+  exact stored_link_not_reassigned _ _ _ _ _ _ _ _ (by decide) (by decide) h1 h2 (by decide)
 
 /-! ### Non-vacuity of the extended part -/
 
